@@ -243,6 +243,30 @@ Proof.
     unfold inp_entry, inp_entry_with. eauto.
 Qed.
 
+(* ---------- unreadable paths (9b8c8cd, fix of D44) ---------- *)
+(* the source reports a path that is no longer a readable regular file (breaks if the fix is reverted) *)
+Lemma unreadable_reported_source : unreadable_input_reported = true.
+Proof. reflexivity. Qed.
+
+(* ... as changed (entered in new_hashes, message kind 2, no ConsistencyError), for every record of an
+   existing file: so unexpected_input_changes is True and the step FAILS and the scheduler drains *)
+Lemma unreadable_input_is_reported old :
+  is_unknown_gen old = false -> inp_entry_path old PUnreadable = Some (true, 2, false).
+Proof.
+  intros Hu. unfold inp_entry_path. rewrite unreadable_reported_source.
+  assert (E : fh_eqb fh_unknown_gen old = false).
+  { rewrite fh_eqb_code. unfold code_eqb, code_of_hash. cbn [fst snd fh_digest fh_unknown_gen].
+    unfold is_unknown_gen in Hu. rewrite N.eqb_sym, Hu. reflexivity. }
+  rewrite E, Hu. reflexivity.
+Qed.
+
+Lemma unreadable_makes_inputs_changed old rest :
+  is_unknown_gen old = false ->
+  forall e, inp_entry_path old PUnreadable = Some e -> inputs_changed_gen (e :: rest) = true.
+Proof.
+  intros Hu e He. rewrite (unreadable_input_is_reported old Hu) in He. inversion He; subst. reflexivity.
+Qed.
+
 (* ---------- the link with the hash codes of model/Fresh.v ---------- *)
 Section HashCodes.
   (* the driver's numbering of (digest, mode, size) triples: any injective numbering *)
